@@ -437,6 +437,44 @@ func sameErrValue(v, e ssa.Value) bool {
 	return false
 }
 
+// sameErrValueAt is sameErrValue with the position taken into account: a load
+// of a spilled cell stands for e only when the store of e is the last store
+// to the cell that dominates the load.
+func sameErrValueAt(v, e ssa.Value) bool {
+	lu, ok := v.(*ssa.UnOp)
+	if !ok || lu.Op != token.MUL {
+		return sameErrValue(v, e)
+	}
+	a, ok := lu.X.(*ssa.Alloc)
+	if !ok {
+		return sameErrValue(v, e)
+	}
+	before := func(x, y ssa.Instruction) bool {
+		if x.Block() == y.Block() {
+			for _, i := range x.Block().Instrs {
+				if i == x {
+					return true
+				}
+				if i == y {
+					return false
+				}
+			}
+		}
+		return x.Block().Dominates(y.Block())
+	}
+	var last *ssa.Store
+	for _, r := range *a.Referrers() {
+		st, ok := r.(*ssa.Store)
+		if !ok || st.Addr != a || !before(st, lu) {
+			continue
+		}
+		if last == nil || before(last, st) {
+			last = st
+		}
+	}
+	return last != nil && last.Val == e
+}
+
 // RuleC judges every dependency call site in scope.
 func (c *Ctx) RuleC(in func(*ssa.Function) bool) int {
 	d := c.deps()
